@@ -41,8 +41,19 @@ def run(cmd, timeout=600, cwd=None, limit=True):
 
 
 # ---------------------------------------------------------------------------------- configuration headers
+import threading
+_cfg_lock = threading.Lock()
+
+
 def gen_config(workdir, cfg):
+    with _cfg_lock:
+        return _gen_config(workdir, cfg)
+
+
+def _gen_config(workdir, cfg):
     d = os.path.join(workdir, 'config_' + cfg)
+    if os.path.exists(os.path.join(d, 'container_node_sizes_impl.hpp')):
+        return d            # already generated in this run (units are built concurrently)
     os.makedirs(d, exist_ok=True)
     a, fill, fence, leak, ptr, dbl = CONFIGS[cfg]
     vals = {
